@@ -440,6 +440,7 @@ func groundObligation(o *Obligation, rounds int) *Obligation {
 		return nil // nothing to gain: the ordinary VC is already quantifier-free
 	}
 	g.addGround(goal)
+	g.seedPointwise(o.prog)
 	for r := 0; r < rounds; r++ {
 		g.changed = false
 		for _, q := range quants {
@@ -672,4 +673,54 @@ func simplifyUnderFacts(assumes []*Term, goal *Term) ([]*Term, *Term) {
 		}
 	}
 	return assumes, goal
+}
+
+// seedPointwise: coin-array operations (R = A op B, allGE, coins predicates) are expanded index by index when the script
+// is built, after grounding; their element terms at the denominations of the VC are offered to the matcher here.
+func (g *grounder) seedPointwise(p *Program) {
+	if p == nil {
+		return
+	}
+	for iter := 0; iter < 4; iter++ {
+		var strs []*Term
+		for t := range g.seen {
+			if t.Sort == SStr && g.gen[t] == 0 {
+				strs = append(strs, t)
+			}
+		}
+		if len(strs) > 40 {
+			return
+		}
+		added := false
+		add := func(arr *Term) {
+			for _, i := range strs {
+				t := Select(arr, i)
+				if !g.seen[t] {
+					g.addGround(t)
+					added = true
+				}
+			}
+		}
+		for _, d := range p.pointwiseDefs {
+			if g.seen[d.R] {
+				add(d.R)
+				add(d.A)
+				add(d.B)
+			}
+		}
+		for _, d := range p.allGEDefs {
+			if g.seen[d.P] {
+				add(d.A)
+				add(d.B)
+			}
+		}
+		for _, d := range p.coinsPredDefs {
+			if g.seen[d.P] {
+				add(d.A)
+			}
+		}
+		if !added {
+			return
+		}
+	}
 }
